@@ -69,7 +69,10 @@ RULE = (
     'fixed source list, all single cuts, all cut pairs for short streams, a subset of '
     'cut triples), two restores from one checkpoint object (double_restore), threads '
     '(seeded random (source, k, cut, sleep) cases), and seeded random larger cases '
-    '(thorough: n <= 40, <= 5 generations, nesting depth 3), and long chains of successive '
+    '(thorough: n <= 40, <= 5 generations, nesting depth 3; 30% of the SequenceDataSource '
+    'paths hold a level that was itself resumed at an offset - shard(i, k, offset), or '
+    'shard(0, 1, K) = an unsharded source restored after K elements - BEFORE the source is '
+    'sharded further, so that later checkpoints nest under a level with a position), and long chains of successive '
     'restores (part D; per chunk one bare SequenceDataSource chain of 1100 restores, sharded or not, '
     'pipelines of 300 restores with the state passed as is / deep-copied / pickled, one '
     'ShardedIterable chain of 250 restores, and 10 (thorough: 60) seeded random chains of 100-400 '
@@ -133,6 +136,7 @@ ASSUMPTIONS = [
     'other shapes, enumerated part only (not in the random / threaded part)',
 ]
 REQUIRED = [
+    'src_resumed_level_in_shard_path_checks', 'src_resumed_level_two_or_more_restores',
     'src_seq_checks', 'src_seq-shard_checks', 'src_seq-nested-shard_checks',
     'src_seqs_checks', 'src_seqs-shard_checks', 'src_iter_checks',
     'src_iter-shard_checks', 'src_ignore_error_checks', 'src_past_end_checks',
@@ -344,6 +348,10 @@ def check_src_case(ctx, case):
     ctx.inconclusive_case('uninterrupted list(ds) differs from the list model',
                           case)
     return
+  if any(len(step) > 2 and step[2] for step in cfg.get('path') or ()):
+    ctx.count('src_resumed_level_in_shard_path_checks')
+    if len(cuts) >= 2:
+      ctx.count('src_resumed_level_two_or_more_restores')
   if fail:
     ctx.count('src_ignore_error_checks')
   else:
@@ -1069,6 +1077,16 @@ def random_src_case(rng, nmax, max_g, depth_max):
       k = rng.randint(1, 5)
       path.append([rng.randrange(k), k])
     cfg['path'] = path
+    if n and rng.random() < 0.3:
+      # a level that was itself resumed at an offset before the source was sharded
+      # further (a restored source that is sharded, then checkpointed again)
+      if path and rng.random() < 0.5:
+        li = rng.randrange(len(path))
+      else:
+        path.insert(0, [0, 1])
+        li = 0
+      upto = dict(cfg, path=path[:li + 1])
+      path[li] = path[li][:2] + [rng.randint(0, len(L.model_positions(upto)))]
   length = len(L.model_stream(cfg))
   g = rng.randint(1, max_g)
   cuts, remaining = [], length
